@@ -273,6 +273,26 @@ def run(ctx):
                   witness=None if r is None else {'blocks': r[0]})
     ctx.floor('C05.X1', 4)
 
+    # ---- G5: a failed command must not stay "up to date" through an older log entry ---------
+    R('C05.G5', 'G', 'necessary for "the next build retries it": when a command fails, either its '
+      'outputs are removed or the build-log entries of its outputs are invalidated; otherwise a '
+      'successful record from an earlier run keeps vouching for the half-written output')
+    fc = prog.fn('Builder::FinishCommand')
+    fails = [e for e in fc.calls('Plan::EdgeFinished') if is_enum('Plan::kEdgeFailed')(e['args'][1])]
+    if not fails:
+        raise AnalysisBroken('no EdgeFinished(kEdgeFailed) site in FinishCommand')
+    for e in fails:
+        r = fc.find_path(None, lambda x: x is e, from_succ=fc.entry,
+                         is_blocker=lambda x: x['k'] == 'call' and (
+                             x.get('name') in ('DiskInterface::RemoveFile', 'BuildLog::RecordCommand', 'BuildLog::Invalidate') or
+                             (x.get('name') or '').startswith('BuildLog::') and 'Erase' in (x.get('name') or '')))
+        after = any(x['k'] == 'call' and x.get('name') in ('DiskInterface::RemoveFile',) and fc.ev_reaches(e, x)
+                    and 'rspfile' not in dstr(x.get('args')) for x in fc.events('call')
+                    if fact_holds(fc.facts_at(x), success_atom, False))
+        ctx.check('C05.G5', r is None or after, fc.name, 'failed-command:stale-log-entry-kept', fc.where(e),
+                  'the failure path invalidates the outputs\' earlier build-log entries or removes the outputs')
+    ctx.floor('C05.G5', 1)
+
     # ---- G4: wait status -> ExitStatus ----------------------------------------------------------
     R('C05.G4', 'G', 'where a wait status becomes an ExitStatus, the exit-code bits '
       '((status & 0xff00) >> 8) are returned only under WIFEXITED ((status & 0x7f) == 0); every '
